@@ -78,6 +78,36 @@ class LockFlow(PyFlow):
                      and " in " in f[1] and "_get_sync_trait_info()['']" in f[1]]
             guard += [f for f in facts if f[0] == "T" and " not in " in f[1]
                       and "_get_sync_trait_info()['']" in f[1]]
+            # the test must be about the very (partner, partner-side name)
+            # pair the assignment below it writes to
+            if isinstance(e, ast.Call):
+                tgt = (norm(e.args[0]), norm(e.args[1]))
+            else:
+                c = e.targets[0].value
+                tgt = (norm(c.args[0]), norm(c.args[1])) \
+                    if len(c.args) >= 2 else ("?", "?")
+            exact = []
+            for f in guard:
+                try:
+                    t = ast.parse(f[1], mode="eval").body
+                except SyntaxError:
+                    continue
+                if isinstance(t, ast.Compare) and len(t.ops) == 1:
+                    recv = [n for n in ast.walk(t.comparators[0])
+                            if isinstance(n, ast.Call)
+                            and isinstance(n.func, ast.Attribute)
+                            and n.func.attr == "_get_sync_trait_info"]
+                    if recv and (norm(recv[0].func.value),
+                                 norm(t.left)) == tgt:
+                        exact.append(f)
+            if guard and not exact:
+                self.flag(("guard-mismatch", norm(e)[:50]),
+                          f"`{norm(e)[:70]}` writes `{tgt[1]}` of `{tgt[0]}` "
+                          f"but the dominating lock test is "
+                          f"`{guard[0][1][:70]}`: it does not ask whether "
+                          f"*that* attribute of the partner is currently "
+                          f"propagating (with differently named sides the "
+                          f"change bounces back / is not delivered)")
             if not guard:
                 self.flag(("unguarded-propagation", norm(e)[:50]),
                           f"`{norm(e)[:70]}` is not dominated by the test "
